@@ -24,7 +24,6 @@
    [fx = false] is the pinned tree: wrapping add, [Now().After(deadline)], no timer (ETimer
                 is a no-op, and the scheduler [simulate] never produces it).          *)
 From Coq Require Import NArith ZArith List Bool.
-From LV Require Import lib.ZPlain.
 Import ListNotations.
 
 (* dag.Metric{Num idx.Event (uint32); Size uint64} *)
@@ -80,7 +79,7 @@ Inductive output :=
 
 (* repaired: !time.Now().Before(deadline)   pinned: time.Now().After(deadline) *)
 Definition expired (fx : bool) (now dl : Z) : bool :=
-  if fx then zleb dl now else zltb dl now.
+  if fx then Z.leb dl now else Z.ltb dl now.
 
 (* one iteration of   for !s.tryAcquire(weight) { if ... {return false}; s.cond.Wait() }  *)
 Definition loop_body (fx : bool) (st : state) (now : Z) (wt : waiter) : state * list output :=
@@ -112,7 +111,7 @@ Fixpoint take_waiter (id : N) (l : list waiter) : option (waiter * list waiter) 
 
 Definition step (fx : bool) (st : state) (now : Z) (ev : event) : state * list output :=
   match ev with
-  | ECall id w tcall timeout => loop_body fx st now (mkW id w (zadd tcall timeout))
+  | ECall id w tcall timeout => loop_body fx st now (mkW id w (Z.add tcall timeout))
   | ETry w =>
     match try_acquire fx (held st) (cap st) w with
     | Some h' => (mkS h' (cap st) (waiting st) (woken st), [OTry true])
@@ -206,7 +205,7 @@ Fixpoint min_waiter (l : list waiter) : option waiter :=
   match l with
   | [] => None
   | x :: r => match min_waiter r with
-              | Some y => if zltb (wdl y) (wdl x) then Some y else Some x
+              | Some y => if Z.ltb (wdl y) (wdl x) then Some y else Some x
               | None => Some x
               end
   end.
@@ -219,7 +218,7 @@ Fixpoint fire_timers (fx : bool) (prefer : list N) (fuel : nat) (s : sim) (upto 
     match min_waiter (waiting (fst (fst s))) with
     | None => s
     | Some x =>
-      let due := match upto with Some T => zleb (wdl x) T | None => true end in
+      let due := match upto with Some T => Z.leb (wdl x) T | None => true end in
       if due
       then fire_timers fx prefer f
              (drain_all fx prefer (sim_step fx s (wdl x) (ETimer (wid x))) (wdl x)) upto
